@@ -79,9 +79,6 @@ func (im *importer) Import(path string) (*types.Package, error) {
 	if p, ok := im.pkgs[path]; ok {
 		return p, nil
 	}
-	if path == "unsafe" {
-		return types.Unsafe, nil
-	}
 	name := im.w.Real(path)
 	p := types.NewPackage(path, name)
 	for m, mp := range im.w.Markers {
